@@ -1,4 +1,5 @@
 import PsycheModel.Lemmas.Lex
+import PsycheModel.LexSpec
 /-!
 # C05 — Tokenisation follows the C11 lexical grammar
 
@@ -98,5 +99,32 @@ theorem tokens_tile_the_text (cfg : Cfg) (s : S) (ts cs : List Tok) (h : lexAll 
     obtain ⟨a, b⟩ := hc.2 c hcm
     obtain ⟨before, e1, e2, _⟩ := token_bytes_are_source s c (b.trans hy.1) a
     exact ⟨before, e1, e2⟩
+
+/-! ## Part B — conformance to C11 6.4 -/
+open PsycheModel.LexSpec
+
+/-- the lexer, started on the first character of `p ++ r`, reads exactly `p` and gives it its kind -/
+def ReadsAs (p : List Nat) (k : Kind) (r : S) : Prop :=
+  match p with
+  | [] => False
+  | ch :: w => (tokenAt ch (asS w ++ r)).kind = k ∧ (tokenAt ch (asS w ++ r)).rest = r ∧ (tokenAt ch (asS w ++ r)).word = false
+
+macro "punct_tac" : tactic => `(tactic| (
+  intro r h hdot
+  try simp [extensions, longer, punctuators] at h
+  rcases r with _ | ⟨c1, _ | ⟨c2, _ | ⟨c3, r⟩⟩⟩ <;> (try simp [startsWith] at h) <;> (try simp [hd] at hdot) <;>
+    simp [ReadsAs, tokenAt, hd, step, asS, asS.asciiCp', hdot, h] <;> (try (repeat' split) <;> simp_all <;> omega)))
+
+set_option maxHeartbeats 1000000 in
+/-- **6.4.6, longest match.**  For every punctuator `p` of C11 (digraphs included) and EVERY continuation `r` of the text
+that does not turn `p` into a longer lexical element (a longer punctuator, a comment opener, a digit after a period),
+the lexer reads `p`, all of `p` and nothing more, and gives it the kind of `p`. -/
+theorem punctuator_longest_match : ∀ e ∈ punctuators, ∀ r : S,
+    (∀ x ∈ extensions e.1, startsWith (r.map (·.c)) x = false) → (e.1 = [46] → isDigit (hd r) = false) →
+    ReadsAs e.1 e.2 r := by
+  intro e he
+  simp only [punctuators, List.mem_cons, List.not_mem_nil, or_false] at he
+  rcases he with rfl | rfl | rfl | rfl | rfl | rfl | rfl | rfl | rfl | rfl | rfl | rfl | rfl | rfl | rfl | rfl | rfl | rfl | rfl | rfl | rfl | rfl | rfl | rfl | rfl | rfl | rfl | rfl | rfl | rfl | rfl | rfl | rfl | rfl | rfl | rfl | rfl | rfl | rfl | rfl | rfl | rfl | rfl | rfl | rfl | rfl | rfl | rfl | rfl | rfl | rfl | rfl | rfl | rfl | rfl | rfl | rfl | rfl
+  all_goals punct_tac
 
 end PsycheModel.Props.C05
